@@ -129,7 +129,7 @@ def _min(ctx, *args):
 @lib('builtins.round')
 def _round(ctx, v, nd=None):
     if nd is not None:
-        raise Unsupported('round ndigits')
+        return _round_decimals(ctx, v, nd)
     return S.round_(v)
 
 
@@ -634,8 +634,33 @@ def _roundf(ctx, x):
 unary('floor', _floor, dtype=lambda d: d if d != 'bool' else 'float')
 unary('ceil', _ceil)
 unary('fix', _fix)
-unary('round', _roundf)
+_np_round0 = unary('round', _roundf)
 unary('rint', _roundf)
+
+
+def _round_decimals(ctx, v, decimals=0, out=None):
+    """round(x, d) = round_half_even(x * 10^d) / 10^d for a concrete d (numpy and builtins agree up to
+    float representation, A2)."""
+    decimals = A.unwrap0(decimals)
+    if S.is_z3(decimals) or not isinstance(decimals, int):
+        raise Unsupported('round with a symbolic number of decimals')
+    if decimals == 0:
+        return _np_round0(ctx, v, out=out)
+    k = Fraction(10) ** decimals
+    f = lambda ctx_, x: S.truediv(S.round_(S.mul(x, k)), k)
+    if isinstance(v, (Arr, tuple, PyList)):
+        a = arr(ctx, v)
+        res = A.elementwise(ctx, lambda x: f(ctx, x), [a], dtype='float')
+    else:
+        res = f(ctx, v)
+    if out is not None:
+        A.setitem(ctx, out, Ellipsis, res)
+        return out
+    return res
+
+
+lib('numpy.round')(_round_decimals)
+lib('numpy.around')(_round_decimals)
 unary('square', lambda ctx, x: S.mul(x, x))
 unary('conj', lambda ctx, x: S.conj(x))
 unary('conjugate', lambda ctx, x: S.conj(x))
